@@ -2,7 +2,10 @@
 
 package tree
 
-import "github.com/benoitkugler/webrender/css/selector"
+import (
+	pr "github.com/benoitkugler/webrender/css/properties"
+	"github.com/benoitkugler/webrender/css/selector"
+)
 
 // Contracts for the deductive verifier in /verif (build tag verif: not compiled
 // into normal builds). Oracle: CSS Cascade 4 §6 (origin and importance, specificity,
@@ -187,11 +190,21 @@ func vLexLE(a, b weight) bool {
 //@   nopanic
 //@   requires computer != nil && typeIs(_value, pr.IntString)
 //@   let v = _value.(pr.IntString)
-//@   let parent = ite(computer.parentStyle != nil, computer.parentStyle.GetFontWeight().Int, 400)
-//@   requires computer.parentStyle != nil ==> in(computer.parentStyle.GetFontWeight().Int, 100, 200, 300, 400, 500, 600, 700, 800, 900)
+//@   let parent = ite(computer.parentStyle != nil, computer.parentStyle.GetFontWeight().Int, pr.InitialValues.GetFontWeight().Int)
+//@   requires in(parent, 100, 200, 300, 400, 500, 600, 700, 800, 900)
 //@   let out = result.(pr.IntString).Int
 //@   ensures typeIs(result, pr.IntString) && result.(pr.IntString).String == ""
 //@   ensures[keywords] (v.String == "normal" ==> out == 400) && (v.String == "bold" ==> out == 700)
 //@   ensures[bolder] v.String == "bolder" ==> out == ite(parent <= 300, 400, ite(parent <= 500, 700, 900))
 //@   ensures[lighter] v.String == "lighter" ==> out == ite(parent <= 500, 100, ite(parent <= 700, 400, 700))
 //@   ensures[number] !in(v.String, "normal", "bold", "bolder", "lighter") ==> out == v.Int
+
+// the initial font-weight is 400 (checked natively: the table of initial values is built by init)
+//@ bounded vInitialFontWeight the initial value of font-weight is 400 (one case, exhaustive)
+//@   props C04
+func vInitialFontWeight() (int, []string) {
+	if w := pr.InitialValues.GetFontWeight(); w.Int != 400 || w.String != "" {
+		return 1, []string{"initial font-weight is not 400"}
+	}
+	return 1, nil
+}
